@@ -34,9 +34,9 @@ Inductive cs : list winstr -> Prop :=
 Lemma ws_safeb_spec sk : ws_safeb sk = true -> exists t, sk = [SAcq t; STest; SWrite true; SLatch; SRel].
 Proof.
   unfold ws_safeb. intros H.
-  destruct sk as [|e1 sk]; [discriminate|]. destruct e1 as [t| | | | | |]; try discriminate.
+  destruct sk as [|e1 sk]; [discriminate|]. destruct e1 as [t| | | | | | |]; try discriminate.
   destruct sk as [|e2 sk]; [discriminate|]. destruct e2; try discriminate.
-  destruct sk as [|e3 sk]; [discriminate|]. destruct e3 as [|  |[|]| | | |]; try discriminate.
+  destruct sk as [|e3 sk]; [discriminate|]. destruct e3 as [|  |[|]| | | | |]; try discriminate.
   destruct sk as [|e4 sk]; [discriminate|]. destruct e4; try discriminate.
   destruct sk as [|e5 sk]; [discriminate|]. destruct e5; try discriminate.
   destruct sk; [|discriminate]. now exists t.
@@ -52,7 +52,7 @@ Qed.
 Lemma top_frame_code sk tmo f c : ws_safeb sk = true -> top c -> top (frame_code sk tmo f ++ c).
 Proof.
   intros Hs Hc. apply ws_safeb_spec in Hs. destruct Hs as (t & ->).
-  unfold frame_code. cbn [flat_map sev_code app].
+  unfold frame_code. cbn [flat_map sev_code app existsb is_early orb]. rewrite app_nil_r.
   change (top (WAcq (t && tmo) :: WTest :: (map (WWrite true) (chunks_of f) ++ [WLatch (is_close f); WRel]) ++ c)).
   rewrite <- app_assoc. cbn [app]. apply top_acq with (f := f). apply it_test. now apply in_wr_code.
 Qed.
@@ -216,7 +216,7 @@ Proof.
     split; [now apply Herr|split; [now rewrite Hop|now rewrite Hcl]].
 Qed.
 
-Ltac fields := cbn [wlk werr wtc wths wwire wclosed wopen wres wcode wfail].
+Ltac fields := cbn [wlk werr wtc wths wwire wclosed wopen wres wmsg wcut wcode wfail].
 
 Lemma okhold_inv s ins rest : okhold s (ins :: rest) ->
   (ins = WTest /\ wopen s = [] /\ exists f, in_wr f [] (chunks_of f) rest)
@@ -266,7 +266,7 @@ Proof.
   destruct (wcode t) as [|ins rest] eqn:Ec; [exact HI|].
   pose proof (inv_thr s HI i t Ei) as Hst. unfold thr_ok in Hst. rewrite Ec in Hst.
   assert (Hex : exists t, nth_error (wths s) i = Some t) by eauto.
-  destruct ins as [|tmo| |fatal x|b| | | |].
+  destruct ins as [|tmo| |fatal x|b| | | | |].
   - (* WPrep: only at top *)
     destruct Hst as [(Hn & [Htop|(Hcs & _)])|(Hh & [(_ & Hok)|(_ & Hcs & _)])]; try absurd_status.
     inversion Htop; subst.
@@ -362,10 +362,11 @@ Proof.
       split; [eapply cs_step_skip; eauto; discriminate|]. fields. auto.
   - (* WRel *)
     destruct Hst as [(Hn & [Htop|(Hcs & Hf)])|(Hh & Hhold)]; try absurd_status.
-    + (* not the holder: nothing to release *)
+    + (* not the holder, and this path did not take the token: no send *)
+      destruct (wfail t) as [e|] eqn:Ef; [|now contradiction Hf].
       assert (Hskip : Inv {| wlk := wlk s; werr := werr s; wtc := wtc s;
-                             wths := upd i {| wcode := rest; wfail := wfail t |} (wths s);
-                             wwire := wwire s; wclosed := wclosed s; wopen := wopen s; wres := wres s |}).
+                             wths := upd i {| wcode := rest; wfail := Some e |} (wths s);
+                             wwire := wwire s; wclosed := wclosed s; wopen := wopen s; wres := wres s; wmsg := wmsg s; wcut := wcut s |}).
       { eapply inv_frame; try eassumption; fields; try reflexivity; auto.
         left. fields. split; [exact Hn|left]. now apply cs_rel_top. }
       destruct (wlk s) as [h|] eqn:El; [|exact Hskip].
@@ -406,6 +407,8 @@ Proof.
             destruct Hin as [Hin|Hin].
             ** inversion Hin; subst t0. split; [eapply Hb; eauto|]. split; [reflexivity|]. eexists. reflexivity.
             ** destruct (inv_close s HI t0 f0 Hin Hc Hne0) as (_ & Ho & _). rewrite Eo in Ho. discriminate Ho.
+  - (* WRelU: in no safe shape *)
+    destruct Hst as [(Hn & [Htop|(Hcs & _)])|(Hh & [(_ & Hok)|(_ & Hcs & _)])]; absurd_status.
   - (* WEnd: only at top *)
     destruct Hst as [(Hn & [Htop|(Hcs & _)])|(Hh & [(_ & Hok)|(_ & Hcs & _)])]; try absurd_status.
     inversion Htop; subst.
@@ -486,7 +489,7 @@ Proof.
   destruct (nth_error (wths s) i) as [t|] eqn:Ei; [|auto].
   destruct (wcode t) as [|ins rest] eqn:Ec; [auto|].
   destruct (werr s) as [e|] eqn:Ee; [|now contradiction He].
-  destruct ins as [|tmo| |fatal x|b| | | |]; fields; auto.
+  destruct ins as [|tmo| |fatal x|b| | | | |]; fields; auto.
   - destruct (wfail t); fields; auto. destruct (wlk s); fields; auto. destruct tmo; fields; auto.
   - destruct (wfail t); fields; auto.
   - destruct (wfail t) eqn:Ef; fields; auto.
@@ -497,7 +500,8 @@ Proof.
     destruct Hok as [(Hx & _)|[(f & d & x0 & r & _ & _ & _ & _ & He')|[(f & Hx & _)|(f & Hx & _)]]]; try discriminate.
     congruence.
   - destruct (wfail t); fields; auto. destruct b; auto.
-  - destruct (wlk s) as [h|]; fields; auto. destruct (Nat.eqb h i); fields; auto.
+  - destruct (wlk s) as [h|]; fields; auto; [destruct (Nat.eqb h i); fields; auto|]; destruct (wfail t); fields; auto.
+  - destruct (wlk s); fields; auto.
 Qed.
 
 Theorem sticky s sched : Inv s -> werr s <> None ->
@@ -575,7 +579,7 @@ Proof.
   destruct (nth_error (wths s) j) as [t|] eqn:Ej; [|now left].
   destruct (wcode t) as [|ins rest] eqn:Ec; [now left|].
   remember (wfail t) as tf0 eqn:Etf0.
-  destruct ins as [|tmo| |fatal x|b| | | |];
+  destruct ins as [|tmo| |fatal x|b| | | | |];
     repeat match goal with
            | |- context [match ?x with _ => _ end] => destruct x eqn:?
            end;
@@ -711,4 +715,127 @@ Lemma find_cex_sound wsk csk sched :
 Proof.
   unfold find_cex. destruct (wths (cex_state wsk csk)) as [|a [|b [|]]]; try discriminate.
   intros H. apply find_first_sound in H. now apply corrupt_after_sound.
+Qed.
+
+(* ------------------------------------------------------------------ the lock as a token channel *)
+(* in every reachable state of a SAFE skeleton no thread ever blocks on a release: a thread whose
+   next instruction is the release completes it (it is the holder and hands the token back, or the
+   path did not take the token and there is no send) *)
+Theorem release_never_blocks s i t rest :
+  Inv s -> nth_error (wths s) i = Some t -> wcode t = WRel :: rest ->
+  nth_error (wths (wstep s i)) i = Some {| wcode := rest; wfail := wfail t |}.
+Proof.
+  intros HI Ei Ec. pose proof (inv_thr s HI i t Ei) as Hst. unfold thr_ok in Hst. rewrite Ec in Hst.
+  unfold wstep. rewrite Ei, Ec.
+  destruct Hst as [(Hn & [Htop|(Hcs & Hf)])|(Hh & _)]; try absurd_status.
+  - destruct (wfail t) as [e|] eqn:Ef; [|now contradiction Hf].
+    destruct (wlk s) as [h|] eqn:El; fields; [|eapply nth_upd_same; eauto].
+    destruct (Nat.eqb h i) eqn:Eh; [apply Nat.eqb_eq in Eh; congruence|]. fields. eapply nth_upd_same; eauto.
+  - rewrite Hh, Nat.eqb_refl. fields. eapply nth_upd_same; eauto.
+Qed.
+
+(* and the unconditional release never occurs in safe code *)
+Theorem no_unconditional_release s i t rest :
+  Inv s -> nth_error (wths s) i = Some t -> wcode t <> WRelU :: rest.
+Proof.
+  intros HI Ei Ec. pose proof (inv_thr s HI i t Ei) as Hst. unfold thr_ok in Hst. rewrite Ec in Hst.
+  destruct Hst as [(Hn & [Htop|(Hcs & _)])|(Hh & [(_ & Hok)|(_ & Hcs & _)])]; absurd_status.
+Qed.
+
+Lemma leaked_after_sound wsk csk sched :
+  leaked_after wsk csk sched = true ->
+  let s := wrun (cex3_state wsk csk) sched in
+  ~ frames_wire (rev (wwire s)) /\ rel_blocked s 2 = true.
+Proof.
+  unfold leaked_after. cbv zeta. intros H. apply andb_true_iff in H. destruct H as (H1 & H2). split; [|exact H2].
+  intros Hf. apply wholeb_sound in Hf. rewrite Hf in H1. discriminate.
+Qed.
+
+Lemma find_cex3_sound wsk csk sched :
+  find_cex3 wsk csk = Some sched ->
+  let s := wrun (cex3_state wsk csk) sched in
+  ~ frames_wire (rev (wwire s)) /\ rel_blocked s 2 = true.
+Proof. unfold find_cex3. intros H. apply find_first_sound in H. now apply leaked_after_sound. Qed.
+
+(* a thread that sits at a blocked release stays there whatever it tries *)
+Lemma rel_blocked_stuck s i : rel_blocked s i = true -> wstep s i = s.
+Proof.
+  unfold rel_blocked, wstep. destruct (nth_error (wths s) i) as [t|]; [|discriminate].
+  destruct (wcode t) as [|[] rest]; try discriminate.
+  - destruct (wfail t); [discriminate|]. destruct (wlk s); [discriminate|]. reflexivity.
+  - destruct (wfail t); destruct (wlk s); try discriminate; reflexivity.
+Qed.
+
+(* ------------------------------------------------------------------ the single-writer message path *)
+(* if only thread d ever executes prepWrite (no other thread's code contains WPrep: control senders,
+   the reader's handlers on the control path, closers), an open message is never cut *)
+Definition no_prep (c : list winstr) : Prop := ~ In WPrep c.
+
+Definition InvS (d : nat) (s : wstate) : Prop :=
+  wcut s = false /\
+  (forall j, wmsg s = Some j -> j = d) /\
+  (forall i t, i <> d -> nth_error (wths s) i = Some t -> no_prep (wcode t)).
+
+Lemma wstep_InvS d s i : InvS d s -> InvS d (wstep s i).
+Proof.
+  intros (Hc & Hm & Hn).
+  destruct (wstep_shape s i) as [->|(t & ins & rest & tf & Ei & Ec & Hths & _)]; [now repeat split|].
+  assert (Hn' : forall j tj, j <> d -> nth_error (wths (wstep s i)) j = Some tj -> no_prep (wcode tj)).
+  { intros j tj Hj Hnj. rewrite Hths in Hnj. apply nth_upd_cases in Hnj.
+    destruct Hnj as [(<- & -> & _)|(_ & Hnj)]; [|eapply Hn; eauto].
+    cbn. intros Hin. apply (Hn i t Hj Ei). rewrite Ec. now right. }
+  unfold InvS. split; [|split; [|exact Hn']].
+  - (* the cut flag: only WPrep can raise it, and only thread d runs WPrep *)
+    revert Hn'. unfold wstep. rewrite Ei, Ec. intros _.
+    destruct ins; repeat match goal with |- context [match ?x with _ => _ end] => destruct x eqn:? end;
+      fields; try exact Hc.
+    all: destruct (Nat.eq_dec i d) as [->|Hne]; [|exfalso; apply (Hn i t Hne Ei); rewrite Ec; now left].
+    all: match goal with Hm' : forall j, Some ?n = Some j -> j = _ |- _ => pose proof (Hm' n eq_refl) end.
+    all: subst; rewrite Nat.eqb_refl in *; discriminate.
+  - revert Hn'. unfold wstep. rewrite Ei, Ec. intros _.
+    destruct ins; repeat match goal with |- context [match ?x with _ => _ end] => destruct x eqn:? end;
+      fields; try exact Hm; intros j Hj; try discriminate; try (apply Hm; congruence).
+    all: try (injection Hj as <-; destruct (Nat.eq_dec i d) as [->|Hne]; [reflexivity|
+              exfalso; apply (Hn i t Hne Ei); rewrite Ec; now left]).
+Qed.
+
+Theorem single_writer_never_cut d codes sched :
+  (forall i c, i <> d -> nth_error codes i = Some c -> no_prep c) ->
+  wcut (wrun (winit codes) sched) = false.
+Proof.
+  intros H. assert (HI : InvS d (wrun (winit codes) sched)).
+  { unfold wrun. apply srun_invariant; [intros; now apply wstep_InvS|].
+    unfold InvS, winit; fields. split; [reflexivity|split; [discriminate|]].
+    intros i t Hi Hn. rewrite nth_error_map in Hn. destruct (nth_error codes i) as [c|] eqn:E; [|discriminate].
+    injection Hn as <-. cbn. eapply H; eauto. }
+  apply HI.
+Qed.
+
+(* the code of control senders, of the reader's handler on the control path and of closers has no prepWrite *)
+Lemma no_prep_frame_code sk tmo f : ws_safeb sk = true -> no_prep (frame_code sk tmo f).
+Proof.
+  intros Hs. apply ws_safeb_spec in Hs. destruct Hs as (t & ->).
+  unfold no_prep, frame_code. cbn [flat_map sev_code app existsb is_early orb]. rewrite app_nil_r.
+  intros Hin. cbn in Hin. destruct Hin as [H|[H|Hin]]; try discriminate.
+  apply in_app_iff in Hin. destruct Hin as [Hin|[H|[H|[]]]]; try discriminate.
+  apply in_map_iff in Hin. destruct Hin as (x & H & _). discriminate.
+Qed.
+
+Definition control_only (o : wop) : Prop := match o with OMsg _ => False | _ => True end.
+
+Lemma no_prep_prog wsk csk ops : ws_safeb csk = true -> Forall control_only ops -> no_prep (prog_code wsk csk ops).
+Proof.
+  intros Hc Hall. unfold prog_code, no_prep. induction Hall as [|o ops Ho _ IH]; cbn; [tauto|].
+  intros Hin. apply in_app_iff in Hin. destruct Hin as [Hin|Hin]; [|now apply IH].
+  destruct o as [tmo f|fs| |f]; cbn [op_code control_only] in *; try contradiction.
+  - apply in_app_iff in Hin. destruct Hin as [Hin|[H|[]]]; [|discriminate]. exact (no_prep_frame_code csk tmo f Hc Hin).
+  - destruct Hin as [H|[H|[]]]; discriminate.
+  - apply in_app_iff in Hin. destruct Hin as [Hin|[H|[]]]; [|discriminate]. exact (no_prep_frame_code csk false f Hc Hin).
+Qed.
+
+Lemma find_cex4_sound wsk csk b sched :
+  find_cex4 wsk csk b = Some sched -> wcut (wrun (cex4_state wsk csk b) sched) = true.
+Proof.
+  unfold find_cex4. destruct (wths (cex4_state wsk csk b)) as [|x [|y [|]]]; try discriminate.
+  intros H. now apply find_first_sound in H.
 Qed.
